@@ -547,10 +547,6 @@ func (w *Writer) flushActiveChunk() error {
 		Compression:      string(w.opts.Compression),
 		Records:          w.compressed.Bytes(),
 	}
-	w.compressed.Reset()
-	w.compressedWriter.Reset(w.compressed)
-	w.compressedWriter.ResetSize()
-	w.compressedWriter.ResetCRC()
 
 	// message indexes
 	messageIndexes := []*MessageIndex{}
@@ -564,6 +560,13 @@ func (w *Writer) flushActiveChunk() error {
 	}
 
 	err = w.WriteChunkWithIndexes(&chunk, messageIndexes)
+	// chunk.Records aliases w.compressed: only hand the buffer back to the
+	// compressor once the chunk has been written out (successfully or not),
+	// since a compressor may write to its destination as soon as it is reset.
+	w.compressed.Reset()
+	w.compressedWriter.Reset(w.compressed)
+	w.compressedWriter.ResetSize()
+	w.compressedWriter.ResetCRC()
 	if err != nil {
 		return err
 	}
